@@ -59,6 +59,13 @@ class DictMapper(RawDocumentMapper):
         if not name:
             raise CodegenError("Unsupported json document, empty property name")
 
+        if name[0] == "{" and name.find("}") > 1:
+            # It would be taken for a namespace qualified name
+            raise CodegenError(
+                "Unsupported json document, property name looks like a qualified name",
+                name=name,
+            )
+
         if isinstance(value, list):
             if not value:
                 cls.build_class_attribute(target, name, None)
